@@ -208,7 +208,20 @@ def edge_families():
               "1 [- c -] 1/2%cup", "1 [- c -] / 2", "2 [- c -] 1/4 cups", "[- a -] [- b -] =1%kg", "1-inch piece", "1-", "-1", "1 -2"]:
         for mark in ("@a", "#a", "~a", "~"):
             out.append("%s{%s}" % (mark, v))
-    fm_tail = ["servings: []", "yield: []", "serves: []", "servings: 0", "servings: [0]", "time: \"  \"", "prep time: \"\t\"",
+    # quantities whose number and unit are separated by non-ASCII blanks (ADVANCED_UNITS value span arithmetic)
+    for sp in ["\u00a0", "\u202f", "\u2009", "\u3000", " \u00a0", "\u00a0 "]:
+        for body in ["1%skg", "=5%smin", "1/2%scup", "1-2%sl", "1%s%%%skg"]:
+            t = body.replace("%s", sp)
+            out.append("@flour{%s}" % t)
+            out.append("~{%s}" % t)
+            out.append("#pot{%s}" % t)
+    # a unit / value continued on the next line after a line comment ending in a multi-byte character
+    for mark in ("#pot", "@a", "~"):
+        out.append("%s{1%%-- x é\nbig}" % mark)
+        out.append("%s{1 -- 名\n%%kg}" % mark)
+        out.append("%s{-- ¿\n1%%kg}" % mark)
+    fm_tail = ["t: é: x", "b: \"é\\q\"", "  é: 2\n b: 3", "名: [é", "tags: [-spicy, vegan]", "storage: [-18, -12]", "x: [- y",
+               "servings: []", "yield: []", "serves: []", "servings: 0", "servings: [0]", "time: \"  \"", "prep time: \"\t\"",
                "time: {prep: \"  \", cook: 5}", "servings: 18446744073709551615", "time: 0x10", "locale: é", "servings: [2, 4, 2]",
                "time: soon", "servings: abc", "tags: [a, [b]]", "locale: xx_yyy", "prep time: x\ncook time: y\ntime: z",
                "time: 1h\nprep time: 5m\ncook time: 5m", "author: {nick: r}", "servings: [2, 2]"]
